@@ -473,8 +473,13 @@ func (ndb *nodeDB) deleteVersion(version int64, cache *rootkeyCache) error {
 		ndb.logger.Error("Error while pruning, moving on the the next version in the store", "version missing", version, "next version", version+1, "err", err)
 	}
 
+	literalRootKey := GetRootKey(version)
+	rootOrphaned := false
 	if rootKey != nil {
 		if err := ndb.traverseOrphansWithRootkeyCache(cache, version, version+1, func(orphan *Node) error {
+			if bytes.Equal(orphan.GetKey(), literalRootKey) {
+				rootOrphaned = true
+			}
 			if orphan.nodeKey.nonce == 0 && !orphan.isLegacy {
 				// if the orphan is a reformatted root, it can be a legacy root
 				// so it should be removed from the pruning process.
@@ -498,7 +503,6 @@ func (ndb *nodeDB) deleteVersion(version int64, cache *rootkeyCache) error {
 		}
 	}
 
-	literalRootKey := GetRootKey(version)
 	if rootKey == nil || !bytes.Equal(rootKey, literalRootKey) {
 		// if the root key is not matched with the literal root key, it means the given root
 		// is a reference root to the previous version.
@@ -512,8 +516,11 @@ func (ndb *nodeDB) deleteVersion(version int64, cache *rootkeyCache) error {
 	if err != nil && !errors.Is(err, ErrVersionDoesNotExist) {
 		return err
 	}
-	if bytes.Equal(literalRootKey, nextRootKey) {
-		root, err := ndb.GetNode(nextRootKey)
+	// the root node of the version is also kept by the next version when it is a leaf
+	// which became a child of the next root, not only when it is the next root itself.
+	keptAsChild := nextRootKey != nil && bytes.Equal(rootKey, literalRootKey) && !rootOrphaned
+	if bytes.Equal(literalRootKey, nextRootKey) || keptAsChild {
+		root, err := ndb.GetNode(literalRootKey)
 		if err != nil {
 			return err
 		}
